@@ -29,6 +29,7 @@ void hc_describe (const Mut *m, char *buf, size_t n) ;
 sf_count_t hc_materialise (const Seed *s, const Mut *m, unsigned char *out) ;	/* out: 2 * s->len + 4096 bytes */
 
 void hc_build_seeds (void) ;
+int  hc_is_reference (const Seed *s) ;	/* first seed of its container, or a rich / hand-built one: gets every header position */
 void hc_seed_families (const Seed *s, HcRun run) ;
 void hc_unconstrained (HcRun run) ;
 #endif
